@@ -95,8 +95,20 @@ pub struct NamedFieldset {
 }
 
 impl NamedFieldset {
-    pub fn has_used_field(&self) -> bool {
-        self.fields.iter().any(NamedField::is_used)
+    pub fn has_used_field(&self) -> /*@[*/(r: /*@]*/bool/*@[*/)/*@]*/
+        //@[ C06 NamedFieldset::has_used_field: some field is not `_`
+        ensures r == exists|i: int| 0 <= i < self.fields@.len() && (#[trigger] self.fields@[i]).name is Ident,
+        //@]
+    {
+        /*@[*/let __vx_r = /*@]*/self.fields.iter().any(NamedField::is_used)/*@[*/;
+        proof {
+            let fs = self.fields@;
+            let rem = fs.as_ref();
+            assert(rem.len() == fs.len());
+            assert(forall|j: int| 0 <= j < rem.len() ==> *(#[trigger] rem[j]) == fs[j]);
+            if !__vx_r { assert forall|j: int| 0 <= j < fs.len() implies !((#[trigger] fs[j]).name is Ident) by { assert(*rem[j] == fs[j]); } }
+        }
+        __vx_r/*@]*/
     }
 }
 #[derive(Clone, Debug)]
@@ -106,7 +118,11 @@ pub struct NamedField {
 }
 
 impl NamedField {
-    pub fn is_used(&self) -> bool {
+    pub fn is_used(&self) -> /*@[*/(r: /*@]*/bool/*@[*/)/*@]*/
+        //@[ C06 NamedField::is_used
+        ensures r == (self.name is Ident),
+        //@]
+    {
         match self.name {
             IdentOrUnderscore::Ident(_) => true,
             IdentOrUnderscore::Underscore(_) => false,
@@ -120,8 +136,20 @@ pub struct TupleFieldset {
 }
 
 impl TupleFieldset {
-    pub fn has_used_field(&self) -> bool {
-        self.fields.iter().any(TupleField::is_used)
+    pub fn has_used_field(&self) -> /*@[*/(r: /*@]*/bool/*@[*/)/*@]*/
+        //@[ C06 TupleFieldset::has_used_field: some field is not skipped
+        ensures r == exists|i: int| 0 <= i < self.fields@.len() && (#[trigger] self.fields@[i]) is Used,
+        //@]
+    {
+        /*@[*/let __vx_r = /*@]*/self.fields.iter().any(TupleField::is_used)/*@[*/;
+        proof {
+            let fs = self.fields@;
+            let rem = fs.as_ref();
+            assert(rem.len() == fs.len());
+            assert(forall|j: int| 0 <= j < rem.len() ==> *(#[trigger] rem[j]) == fs[j]);
+            if !__vx_r { assert forall|j: int| 0 <= j < fs.len() implies !((#[trigger] fs[j]) is Used) by { assert(*rem[j] == fs[j]); } }
+        }
+        __vx_r/*@]*/
     }
 }
 
@@ -132,7 +160,11 @@ pub enum TupleField {
 }
 
 impl TupleField {
-    pub fn is_used(&self) -> bool {
+    pub fn is_used(&self) -> /*@[*/(r: /*@]*/bool/*@[*/)/*@]*/
+        //@[ C06 TupleField::is_used
+        ensures r == (*self is Used),
+        //@]
+    {
         match self {
             TupleField::Used(_) => true,
             TupleField::Skipped(_) => false,
